@@ -3,3 +3,4 @@ pub mod color;
 pub mod colornames;
 pub mod css;
 pub mod num;
+pub mod sassval;
